@@ -269,23 +269,32 @@ func Replay(path string, verbose bool) int {
 		fmt.Fprintln(os.Stderr, "replay: unknown engine", rf.Plan.Engine)
 		return 2
 	}
-	res := safeExecute(e, rf.Plan, verbose)
-	if res.HarnessErr != "" {
-		fmt.Fprintln(os.Stderr, "replay: harness error:", res.HarnessErr)
-		return 2
-	}
-	out := map[string]interface{}{"log_hash": res.LogHash, "violations": res.Violations}
-	ob, _ := json.Marshal(out)
-	fmt.Println("REPLAY-RESULT " + string(ob))
-	if verbose {
-		for _, l := range res.Trace {
-			fmt.Println(l)
+	// The simulator is deterministic; the system under test may not be (a defect that makes
+	// an outcome depend on Go's randomised map iteration, say). Such a violation cannot replay
+	// on every attempt: the plan is re-executed a few times and the attempt count is reported.
+	attempts := 6
+	for a := 1; a <= attempts; a++ {
+		res := safeExecute(e, rf.Plan, verbose)
+		if res.HarnessErr != "" {
+			fmt.Fprintln(os.Stderr, "replay: harness error:", res.HarnessErr)
+			return 2
 		}
-	}
-	if v := sameViolation(res, rf.Violation); v != nil {
-		fmt.Printf("VIOLATION property=%s replay=%s\n", rf.Property, path)
-		fmt.Printf("  kind=%s %s\n", v.Kind, trunc(v.Detail, 400))
-		return 1
+		out := map[string]interface{}{"log_hash": res.LogHash, "violations": res.Violations, "attempt": a}
+		ob, _ := json.Marshal(out)
+		fmt.Println("REPLAY-RESULT " + string(ob))
+		if verbose {
+			for _, l := range res.Trace {
+				fmt.Println(l)
+			}
+		}
+		if v := sameViolation(res, rf.Violation); v != nil {
+			fmt.Printf("VIOLATION property=%s replay=%s\n", rf.Property, path)
+			fmt.Printf("  kind=%s %s\n", v.Kind, trunc(v.Detail, 400))
+			if a > 1 {
+				fmt.Printf("  note: reproduced at attempt %d of %d: the outcome of the code under test is not a function of the plan (non-determinism in git-bug itself)\n", a, attempts)
+			}
+			return 1
+		}
 	}
 	fmt.Println("replay: violation did not reproduce")
 	return 0
